@@ -1435,7 +1435,7 @@ int uv_os_environ(uv_env_item_t** envitems, int* count) {
   *envitems = NULL;
   *count = 0;
 
-  for (i = 0; environ[i] != NULL; i++);
+  for (i = 0; environ != NULL && environ[i] != NULL; i++);
 
   *envitems = uv__calloc(i, sizeof(**envitems));
 
